@@ -53,6 +53,7 @@ def run(chk):
     for MAX in caps:
         chk.guard('gdt', 'MAX=%d' % MAX, lambda MAX=MAX: capacity(chk, MAX))
     chk.guard('gdt', 'capacity assertions', lambda: bad_capacity(chk))
+    chk.guard('gdt', 'entry value and default constructors', lambda: entry_and_defaults(chk))
     chk.guard('asm-options', 'lgdt', lambda: asm_not_pure(chk, chk.I, 'asm-options', ['src/instructions/tables.rs'], 5))
     chk.floor('obligations', len(chk.obs), 146)
 
@@ -215,3 +216,45 @@ def capacity(chk, MAX):
         ok = ok and rv.fields[0] is tl
     chk.ob('from-raw', 'from_raw_entries%s: asserts (non-empty, first entry zero, len <= MAX) precede a loop from 0 that copies raw[idx] into slot idx; result len = slice length' % tag, ok, detail, fn_site(I, fn_))
     chk.ob('from-raw', 'from_raw_entries%s: panic paths are the three assertions (and unreachable bounds checks)' % tag, bool(pans) and all(x.kind == 'panic' for x in pans), 'paths %r' % ([x.val for x in pans],), fn_site(I, fn_))
+
+
+def entry_and_defaults(chk):
+    """gdt::Entry is a transparent holder of the 64-bit descriptor word (raw / clone / eq); GlobalDescriptorTable::new and Default are
+    `empty()` of the default capacity"""
+    I = chk.I
+    e = mk_entry(BV.sym(64, 'w')) if 'mk_entry' in globals() else Struct(ENTRY, [Struct('core::sync::atomic::AtomicU64', [BV.sym(64, 'w')])])
+    st = State()
+    ref = arg_obj(st, 'self', e)
+    o = I.run(ENTRY + '::raw', [ref], st)
+    chk.count('function-instances')
+    chk.ob('entry-value', 'gdt::Entry::raw returns the stored word', len(o) == 1 and o[0].kind == 'ret' and same(o[0].val, BV.sym(64, 'w')), 'paths %r' % (o,), fn_site(I, ENTRY + '::raw'))
+    fn_ = '<%s as core::clone::Clone>::clone' % ENTRY
+    st = State()
+    ref = arg_obj(st, 'self', e)
+    o = I.run(fn_, [ref], st)
+    chk.count('function-instances')
+    chk.ob('entry-value', 'gdt::Entry::clone holds the same word', len(o) == 1 and o[0].kind == 'ret' and same(entry_bits(o[0].val), BV.sym(64, 'w')), 'paths %r' % (o,), fn_site(I, fn_))
+    fn_ = '<%s as core::cmp::PartialEq>::eq' % ENTRY
+    st = State()
+    a = arg_obj(st, 'a', e)
+    b = arg_obj(st, 'b', Struct(ENTRY, [Struct('core::sync::atomic::AtomicU64', [BV.sym(64, 'v')])]))
+    o = I.run(fn_, [a, b], st)
+    chk.count('function-instances')
+    from ..bits import eq_bit
+    want = BV(1, [eq_bit(tuple(sl('w', 0, 64)), tuple(sl('v', 0, 64)))])
+    chk.ob('entry-value', 'gdt::Entry::eq is equality of the two words', len(o) == 1 and o[0].kind == 'ret' and same(o[0].val, want), 'paths %r' % (o,), fn_site(I, fn_))
+    # new() / default(): delegate to empty()
+    saved = set(I.opaque_fns)
+    I.opaque_fns |= {G + 'empty'}
+    try:
+        for fn_ in ('structures::gdt::GlobalDescriptorTable::new', '<structures::gdt::GlobalDescriptorTable as core::default::Default>::default'):
+            if fn_ not in I.fn:
+                chk.unproven('gdt', fn_.split('::')[-1], 'function not found (anchor lost)')
+                continue
+            o = I.run(fn_, [], State())
+            chk.count('function-instances')
+            calls = [ev for ev in o[0].st.events if ev[0] == 'call'] if len(o) == 1 else []
+            ok = len(o) == 1 and o[0].kind == 'ret' and len(calls) == 1 and calls[0][1] == G + 'empty' and ('empty#%d' % calls[0][5]) in repr(o[0].val)
+            chk.ob('gdt', '%s is empty()' % fn_.replace('structures::gdt::', ''), ok, 'paths %r calls %r' % (o, [c[1] for c in calls]), fn_site(I, fn_))
+    finally:
+        I.opaque_fns = saved
